@@ -488,6 +488,7 @@ pub fn run_step(ws: &Ws, step: &Value) -> Value {
             out
         }
         "race" => race(ws, step),
+        "write_race" => write_race(ws, step),
         other => json!({"result": "harness_error", "msg": format!("unknown op {other:?}")}),
     }
 }
@@ -609,4 +610,55 @@ fn race(ws: &Ws, step: &Value) -> Value {
         Ok(None) => json!({"trace": trace, "monitor_errors": merrs, "timeout": true, "panic": Value::Null}),
         Err(_) => json!({"trace": trace, "monitor_errors": merrs, "timeout": false, "panic": "panic in race"}),
     }
+}
+
+
+/// Exclusive creation under contention: `writers` threads, each with its own runtime and its own plain local transport on
+/// the archive directory, write DIFFERENT contents to the same fresh path with WriteMode::CreateNew, released together by a
+/// barrier; `n` rounds, each on a new path.  Reports the rounds in which more than one write returned Ok, and the rounds
+/// in which the file does not hold exactly the content of a successful writer.
+fn write_race(ws: &Ws, step: &Value) -> Value {
+    use std::sync::{Arc, Barrier};
+    let n = step.get("n").and_then(Value::as_u64).unwrap_or(1000) as usize;
+    let writers = step.get("writers").and_then(Value::as_u64).unwrap_or(2) as usize;
+    let dir = ws.root.join("wr");
+    let _ = std::fs::create_dir_all(&dir);
+    let barrier = Arc::new(Barrier::new(writers));
+    let mut handles = Vec::new();
+    for w in 0..writers {
+        let dir = dir.clone();
+        let barrier = barrier.clone();
+        handles.push(std::thread::spawn(move || {
+            let rt = tokio::runtime::Builder::new_current_thread().enable_all().build().unwrap();
+            let t = Transport::local(&dir);
+            let mut oks = Vec::with_capacity(n);
+            for i in 0..n {
+                let content = format!("writer-{w}-round-{i}-{}", "x".repeat(64 + w)).into_bytes();
+                barrier.wait();
+                let r = rt.block_on(t.write(&format!("f{i}"), &content, conserve::transport::WriteMode::CreateNew));
+                oks.push(r.is_ok());
+            }
+            oks
+        }));
+    }
+    let results: Vec<Vec<bool>> = handles.into_iter().map(|h| h.join().unwrap_or_default()).collect();
+    let mut both = 0usize;
+    let mut none = 0usize;
+    let mut bad_content = 0usize;
+    for i in 0..n {
+        let winners: Vec<usize> = (0..writers).filter(|w| results[*w].get(i).copied().unwrap_or(false)).collect();
+        if winners.len() > 1 {
+            both += 1;
+        }
+        if winners.is_empty() {
+            none += 1;
+        }
+        let got = std::fs::read(dir.join(format!("f{i}"))).unwrap_or_default();
+        let fits = winners.iter().any(|w| got == format!("writer-{w}-round-{i}-{}", "x".repeat(64 + w)).into_bytes());
+        if !fits {
+            bad_content += 1;
+        }
+    }
+    let _ = std::fs::remove_dir_all(&dir);
+    json!({"result": "ok", "value": {"rounds": n, "writers": writers, "more_than_one_ok": both, "no_writer_ok": none, "content_not_a_winners": bad_content}})
 }
